@@ -10,6 +10,11 @@ DWScope == /\ sect'[2] <= 1
 
 \* simulation runs that export schedules: keep the random walks interesting (no section is
 \* given up before its PreCommit, the solo phase starts when every writer used its sections)
+\* and in step with the code: a proposer's internal region (which the real goroutine enters as soon as
+\* its broadcast is decided) is never delayed behind other steps
+IntEnabled(p) == \/ (op[p] = "pc" /\ (need[p] = 0 \/ rem[p] < need[p]))
+                 \/ (op[p] \in {"rollback", "abortrb", "commit"} /\ need[p] = 0)
 SimScope == /\ act'[1] = "abort" => op[act'[2]] \in {"prepared", "failed"}
             /\ act'[1] = "solo" => \A w \in Writers : sect[w] = MaxSect
+            /\ (\E p \in Writers : IntEnabled(p)) => act'[1] = "int"
 =============================================================================
